@@ -199,6 +199,21 @@ def whole_runs():
             s2.run(n_total=1024, progress=False, resume_state_path=mid)
             if found:
                 return found[0], {"scenario": "resumed run", "cluster_every": ce, "resample": rsm, "checkpoint": os.path.basename(mid)}
+            if ce > 1:
+                # the live (already used) sampler takes over the history of ANOTHER chain and iterates on, also off the cadence
+                d3 = os.path.join(tmp, f"other{ce}{rsm}")
+                s3 = tempest.Sampler(lambda u: 10 * u - 5, lambda x: float(np.logaddexp(-0.5 * np.sum((x - 3.0) ** 2) / 0.02, -0.5 * np.sum((x + 3.0) ** 2) / 0.02)),
+                                     n_dim=2, n_particles=256, random_state=6, clustering=True, output_dir=d3, cluster_every=ce, resample=rsm)
+                mut.parallel_mcmc = real
+                s3.run(n_total=768, progress=False, save_every=1)
+                cks3 = sorted((f for f in os.listdir(d3) if f.endswith(".state") and "final" not in f), key=lambda f: int(f.split("_")[1].split(".")[0]))
+                for pick in cks3[-3:-1]:
+                    s.load_state(os.path.join(d3, pick))
+                    mut.parallel_mcmc = spy_for(s, f"used sampler continuing another chain's {pick} (cluster_every={ce}, resample={rsm})")
+                    for _ in range(ce + 1):
+                        s.sample()
+                    if found:
+                        return found[0], {"scenario": "used sampler takes over another chain", "cluster_every": ce, "resample": rsm, "checkpoint": pick}
     except Exception as e:
         return f"whole run raised {type(e).__name__}: {e}", {"scenario": "whole run"}
     finally:
